@@ -1,6 +1,6 @@
 (* C11: obligations over the GENERATED tables (Gen/LegacyOrder.v, Gen/FieldSpecs.v), the theorems
    instantiated with them, witnesses of what does NOT hold, and non-vacuity examples. *)
-From KV Require Import Res.Compose Res.LegacySortProofs Res.ComposeProofs Gen.LegacyOrder Gen.FieldSpecs.
+From KV Require Import Res.Compose Res.LegacySortProofs Res.LegacyExact Res.ComposeProofs Gen.LegacyOrder Gen.FieldSpecs.
 From Coq Require Import Sorting.Permutation.
 Open Scope string_scope.
 
@@ -46,7 +46,13 @@ Proof. apply single_catchall_hit. apply gen_name_fs_single. Qed.
 Definition accumulate_gen (cs : gvk -> bool) : tree -> res (list resource) :=
   accumulate cs gen_name_prefix_fs gen_name_suffix_fs gen_prefix_skip gen_suffix_skip.
 Definition build_gen (cs : gvk -> bool) : sort_opt -> tree -> res (list rid) :=
-  build cs gen_name_prefix_fs gen_name_suffix_fs gen_prefix_skip gen_suffix_skip.
+  build cs gen_name_prefix_fs gen_name_suffix_fs gen_prefix_skip gen_suffix_skip gen_ns_reversal_guarded.
+(* the build with the comparator WITHOUT the rank guard (the source as it stood when the finding was made) *)
+Definition build_unguarded (cs : gvk -> bool) : sort_opt -> tree -> res (list rid) :=
+  build cs gen_name_prefix_fs gen_name_suffix_fs gen_prefix_skip gen_suffix_skip false.
+(* the comparator of the current source *)
+Definition less_gen (first last : list string) : rid -> rid -> bool :=
+  legacy_less_g gen_ns_reversal_guarded first last.
 Definition out_name_gen : rid -> list (string * string) -> string := out_name gen_prefix_skip gen_suffix_skip.
 Definition default_legacy : sort_opt := SortLegacy gen_order_first gen_order_last.
 
@@ -69,6 +75,15 @@ Theorem permute_legacy_default : forall cs t t' out,
   tperm t t' -> build_gen cs default_legacy t = Ok out -> valid_ids out ->
   build_gen cs default_legacy t' = Ok out.
 Proof. intros. eapply build_permute_legacy; eauto using gen_namespace_isolated. Qed.
+
+(* the comparator of the current source (with or without the rank guard) on the built-in lists *)
+Theorem legacy_total_gen_default : forall l, valid_ids l -> total_on (less_gen gen_order_first gen_order_last) l.
+Proof. intros. apply legacy_g_total_on; auto using gen_namespace_isolated. Qed.
+
+(* once the source carries the rank guard, the hypothesis on the lists disappears *)
+Theorem legacy_total_gen_all_lists : gen_ns_reversal_guarded = true ->
+  forall first last l, valid_ids l -> total_on (less_gen first last) l.
+Proof. intros G first last l V. apply legacy_g_total_on; auto. Qed.
 
 Theorem prefix_nesting_gen : forall cs t out r,
   accumulate_gen cs t = Ok out -> In r out ->
@@ -125,8 +140,8 @@ Definition witness_tree' : tree := Dir [File [grouped_ns]; File [other_foo]; Fil
 Lemma permute_legacy_refuted :
   exists first last t t' out out',
     tperm t t' /\ valid_ids out /\
-    build_gen cs_none (SortLegacy first last) t = Ok out /\
-    build_gen cs_none (SortLegacy first last) t' = Ok out' /\ out <> out'.
+    build_unguarded cs_none (SortLegacy first last) t = Ok out /\
+    build_unguarded cs_none (SortLegacy first last) t' = Ok out' /\ out <> out'.
 Proof.
   exists custom_first, [], witness_tree, witness_tree',
     [core_ns; grouped_ns; other_foo], [grouped_ns; other_foo; core_ns].
@@ -173,7 +188,7 @@ Definition ex_skip : list fieldspec :=
   [mkFs "" "" "CustomResourceDefinition" "" false; mkFs "apiregistration.k8s.io" "" "APIService" "" false;
    mkFs "" "" "Namespace" "" false].
 Definition ex_acc := accumulate cs_none ex_fs ex_fs ex_skip ex_skip.
-Definition ex_build := build cs_none ex_fs ex_fs ex_skip ex_skip.
+Definition ex_build := build cs_none ex_fs ex_fs ex_skip ex_skip false.
 
 Example ex_sorted :
   namespace_isolated ex_first ex_last = true /\
